@@ -48,9 +48,10 @@ pub enum Code {
     DowngradeExpectPanic, // a = var
     UpgradeExpectPanic, // a = wvar
     DupWeakExpectPanic, // a = wvar
+    PutG,           // a = src var                               (move var into empty G)
 }
 
-pub const NCODES: u8 = Code::DupWeakExpectPanic as u8 + 1;
+pub const NCODES: u8 = Code::PutG as u8 + 1;
 
 #[derive(Clone, Copy, PartialEq, Eq, Hash, PartialOrd, Ord)]
 pub struct Op {
@@ -139,6 +140,7 @@ impl fmt::Debug for Op {
             DowngradeExpectPanic => write!(f, "DowngradeAtMax(v{a})")?,
             UpgradeExpectPanic => write!(f, "UpgradeAtMax(w{a})")?,
             DupWeakExpectPanic => write!(f, "DupWeakAtMax(w{a})")?,
+            PutG => write!(f, "PutG(v{a}->G)")?,
         }
         if self.fault != NO_FAULT {
             write!(f, "[panic@cp{}]", self.fault)?;
